@@ -361,7 +361,7 @@ def check_property(prop, tier, seed, reg):
                 violations.append((R, f))
     # optional kani twins (thorough tier, or to find a failing input for a violation)
     kani_results = []
-    if P.get("kani") and (tier == "thorough" or violations or P.get("kani_quick")):
+    if P.get("kani") and (tier == "thorough" or violations or P.get("kani_quick")) and not os.environ.get("VERIF_NO_KANI"):
         try:
             from . import kani as K
             kani_results = K.run_group(P["kani"], prop, tier, REPO, ROOT, only_quick=(tier == "quick" and not violations))
